@@ -23,6 +23,10 @@ class _Sel:
 
     def select(self, timeout):
         l = self.loop
+        if l.abort is not None:
+            # the environment gives up on this execution (e.g. the code under test keeps consuming an endless supply)
+            e, l.abort = l.abort, None
+            raise e
         if timeout is None:
             if not l.env_step():
                 raise Hang('quiescent')
@@ -50,6 +54,7 @@ class VLoop(base_events.BaseEventLoop):
         return self._vtime
 
     tick_hook = None
+    abort = None
 
     def _run_once(self):
         # one loop iteration = run everything that is ready now; the hook lets an environment
